@@ -39,7 +39,7 @@ type scenOpts struct {
 }
 
 func newSim(w *vsim.World, spec *vsim.Spec, o scenOpts) *sim {
-	s := &sim{w: w, spec: spec, t0: time.Now(), rate: map[string]int{}, everStarted: map[string]int{}, staleUnlock: map[string]bool{},
+	s := &sim{w: w, spec: spec, t0: time.Now(), rate: map[string]int{}, everStarted: map[string]int{}, staleUnlock: map[string]bool{}, staleUnlockEarly: map[string]bool{},
 		evOn: map[string]bool{}, origPrio: map[string]int64{}, o: o}
 	w.GateSpawn = true // children of `go` statements start at a scheduler decision, never concurrently with the parent
 	s.k = drawKnobs(w)
